@@ -751,6 +751,8 @@ fn decode_table(
         {
             let mut counts = Vec::with_capacity(leaf.values.len());
             let mut kinds = Vec::with_capacity(leaf.values.len());
+            // the values of the inline collections, in stored order (an empty list for a subtree)
+            let mut inline_values: Vec<Value> = Vec::with_capacity(leaf.values.len());
             for (i, value) in leaf.values.iter().enumerate() {
                 let what = format!("table {name:?} page {} entry {i}", rec.num);
                 // Collection layout: 0 type. Type 1 (inline): the remaining bytes are a
@@ -763,11 +765,15 @@ fn decode_table(
                         counts.push(Value::from(inline.keys.len()));
                         kinds.push(Value::from("inline"));
                         total_values += inline.keys.len() as u64;
+                        inline_values.push(Value::Array(
+                            inline.keys.iter().map(|k| Value::Array(k.iter().map(|b| Value::from(*b)).collect())).collect(),
+                        ));
                     }
                     Some(&COLLECTION_SUBTREE) => {
                         let root = TreeRoot::parse(value, 1, &what)?;
                         counts.push(Value::from(root.len));
                         kinds.push(Value::from("subtree"));
+                        inline_values.push(Value::Array(vec![]));
                         total_values = total_values.saturating_add(root.len);
                         subtrees.push(Subtree {
                             parent_key: leaf.keys[i].to_vec(),
@@ -782,6 +788,7 @@ fn decode_table(
             }
             pj.insert("multimap_counts".into(), Value::Array(counts));
             pj.insert("multimap_kinds".into(), Value::Array(kinds));
+            pj.insert("multimap_inline".into(), Value::Array(inline_values));
         }
         page_values.push(Value::Object(pj));
     }
